@@ -171,6 +171,17 @@ def examine_error(env, desc, d, op, codes, stats):
     if mrc != rc:
         raise Finding("model-vs-impl", "tie:sign-code", {"what": desc, "impl_rc": rc, "model_rc": mrc, "op": opline,
                                                          "check": {"type": "rc_in", "values": [mrc]}}, d)
+    if op and codes == {CODES["LOAD_PRIV_KEY_ERROR"]}:
+        # the answer depends on the key handed in, not on what was asked before: the same unloadable key again (a good
+        # key has been used earlier in this process), then the good key again
+        rc2, sig2, _h = impl_sign(env, d, raw=op[1])
+        stats["evaluations"] += 1
+        stats["repeated_bad_key"] = stats.get("repeated_bad_key", 0) + 1
+        if rc2 != rc or sig2 is not None:
+            raise Finding("impl-vs-spec", "error-not-reported", {
+                "what": desc + ", handed in a second time after a successful signature with another key", "impl_rc": rc2,
+                "first_attempt_rc": rc, "expected_one_of": sorted(codes),
+                "op": "sign %d\n%s\n%s" % (d["signer"], opline, opline), "check": {"type": "rc_in", "values": sorted(codes)}}, d)
 
 
 def roundtrip(rnd, env, stats):
@@ -311,6 +322,8 @@ def run(chk):
                 for desc, d, op, codes in error_cases(rnd, env, c):
                     stats["error_cases"] += 1
                     examine_error(env, desc, d, op, codes, stats)
+                if i % 4 == 0:
+                    examine_sign(env, c, stats)      # the good key again after the unloadable ones
             except base.Finding as f:
                 if f.kind == "impl-vs-spec" and f.key in ("signing-layout", "signature-rejected", "sign-failed"):
                     def fails(d, key=f.key):
